@@ -84,9 +84,6 @@ def hasSizeCheck : Op → Bool
   | .div | .mod | .lsl | .lsr | .asr | .ror | .rol | .geu | .ltu | .not => false
   | _ => true
 
-/-- bound above which `int << n` is taken to raise `MemoryError`/`OverflowError`. -/
-def shlLimit : Nat := 2 ^ 24
-
 /-- the `cst` operator table on two constants `(lv, ls, lf)`, `(rv, rs, rf)`; `lf` is the sign flag *after*
     the side effect of the operator on `self` (`>>` clears it, `//` sets it — done by the caller `api`). -/
 def cstApi (o : Op) (lv ls : Nat) (lf : Bool) (rv rs : Nat) (rf : Bool) : R Expr :=
@@ -102,14 +99,9 @@ def cstApi (o : Op) (lv ls : Nat) (lf : Bool) (rv rs : Nat) (rf : Bool) : R Expr
   | .and => .ok (mkCst ((lv &&& rv : Nat) : Int) ls)
   | .or => .ok (mkCst ((lv ||| rv : Nat) : Int) ls)
   | .xor => .ok (mkCst ((lv ^^^ rv : Nat) : Int) ls)
-  | .lsl =>
-      if Rv < 0 then .error .value
-      else if L = 0 then .ok (mkCst 0 ls)
-      else if Rv.toNat ≥ shlLimit then .error .overflow
-      else if Rv.toNat ≥ ls then .ok (cst 0 ls (decide (L < 0)))
-      else .ok (mkCst (L * ((2 ^ Rv.toNat : Nat) : Int)) ls)
-  | .lsr => if Rv < 0 then .error .value else .ok (mkCst (L >>> Rv.toNat) ls)
-  | .asr => if Rv < 0 then .error .value else .ok (mkCst (L >>> Rv.toNat) ls)
+  | .lsl => if rv < ls then .ok (mkCst (L * ((2 ^ rv : Nat) : Int)) ls) else .ok (mkCst 0 ls)
+  | .lsr => .ok (mkCst (L >>> rv) ls)
+  | .asr => .ok (mkCst (L >>> rv) ls)
   | .eq => .ok (ofBool (lv == rv))
   | .neq => .ok (ofBool (lv != rv))
   | .lt => .ok (ofBool (decide (L < Rv)))
@@ -224,7 +216,7 @@ def overlapping (sta sto : Nat) (ps : List Part) : List Part :=
   sortParts (ps.filter (fun p => p.1 < sto && sta < p.2.1))
 
 /-- `[bit0] * n` -/
-def bit0s (n : Int) : List Expr := List.replicate n.toNat bit0
+def bit0s (n : Nat) : List Expr := List.replicate n bit0
 
 /-- `range(a, b)` as Python ints -/
 def pyRange (a b : Int) : List Int := (List.range (b - a).toNat).map (fun (k : Nat) => a + (k : Int))
@@ -440,7 +432,8 @@ def eqn2 : Nat → Opts → Op → Expr → Expr → Nat → Bool → Nat → R 
           if o == Op.eq && l.isExt then return some bit0
           if o == Op.neq && l.isExt then return some bit1
           return none
-        else if value = 1 && (o == Op.mul || o == Op.mul2 || o == Op.div) then return some l
+        else if value = 1 && (o == Op.mul || o == Op.div) then return some l
+        else if value = 1 && o == Op.mul2 then return some (← extendExp fuel l.sf l size)
         else
           match (if o == Op.and then maskBounds value else none) with
           | some (i1, i2) => do
@@ -456,25 +449,26 @@ def eqn2 : Nat → Opts → Op → Expr → Expr → Nat → Bool → Nat → R 
                 let b ← getitem fuel r i (i + 1)
                 callOp fuel o a b)
               return some (← composer fuel bits)
-            else if opts.bitslice && (o == Op.lsl || o == Op.lt) then do
-              let bits ← (pyRange 0 (size - value)).mapM (fun i => getitem fuel l i (i + 1))
-              return some (← composer fuel (bit0s value ++ bits))
-            else if opts.bitslice && (o == Op.lsr || o == Op.gt) then do
-              let bits ← (pyRange value size).mapM (fun i => getitem fuel l i (i + 1))
-              return some (← composer fuel (bits ++ bit0s value))
+            else if (o == Op.lsl || o == Op.lsr) && rv ≥ l.size then return some (cst 0 size false)
+            else if opts.bitslice && o == Op.lsl then do
+              let bits ← (pyRange 0 ((size : Int) - (rv : Int))).mapM (fun i => getitem fuel l i (i + 1))
+              return some (← composer fuel (bit0s rv ++ bits))
+            else if opts.bitslice && o == Op.lsr then do
+              let bits ← (pyRange rv size).mapM (fun i => getitem fuel l i (i + 1))
+              return some (← composer fuel (bits ++ bit0s rv))
             else if o == Op.lsl then do
               let n := l.size
               let c := Expr.comp n false []
               let c ← setitem fuel c 0 n (cst 0 n false)
-              let piece ← getitem fuel l 0 (n - value)
-              let c ← setitem fuel c value n piece
+              let piece ← getitem fuel l 0 ((n : Int) - (rv : Int))
+              let c ← setitem fuel c rv n piece
               return some (← simplify fuel {} c)
             else if o == Op.lsr then do
               let n := l.size
               let c := Expr.comp n false []
               let c ← setitem fuel c 0 n (cst 0 n false)
-              let piece ← getitem fuel l value n
-              let c ← setitem fuel c 0 (n - value) piece
+              let piece ← getitem fuel l rv n
+              let c ← setitem fuel c 0 ((n : Int) - (rv : Int)) piece
               return some (← simplify fuel {} c)
             else return none)
       match ← first with
@@ -492,7 +486,8 @@ def eqn2 : Nat → Opts → Op → Expr → Expr → Nat → Bool → Nat → R 
             | none =>
                 if rs == 1 && o == Op.eq then
                   if value = 1 then return l else return ← apiNot fuel l
-                else if rs == 1 && o == Op.neq then return ← apiNot fuel l
+                else if rs == 1 && o == Op.neq then
+                  if value = 1 then return ← apiNot fuel l else return l
                 else eqn2tail fuel opts o l r size sf prop
         | .uop lo lr _ _ _ =>
             match Op.pm o lo with
@@ -504,7 +499,8 @@ def eqn2 : Nat → Opts → Op → Expr → Expr → Nat → Bool → Nat → R 
             | none =>
                 if rs == 1 && o == Op.eq then
                   if value = 1 then return l else return ← apiNot fuel l
-                else if rs == 1 && o == Op.neq then return ← apiNot fuel l
+                else if rs == 1 && o == Op.neq then
+                  if value = 1 then return ← apiNot fuel l else return l
                 else eqn2tail fuel opts o l r size sf prop
         | .ptr .. =>
             if o == Op.sub || o == Op.add then throw .unmodelled
@@ -621,7 +617,7 @@ def helperCmp : Nat → Op → Expr → Expr → R Expr
   | 0, _, _, _ => .error .fuel
   | fuel + 1, o, x, y =>
     if x.isCst && y.isCst then
-      api fuel (if o == Op.ltu then Op.lt else Op.ge) (x.setSf true) (y.setSf true)
+      api fuel (if o == Op.ltu then Op.lt else Op.ge) (x.setSf false) (y.setSf false)
     else mkOp o x y
 
 /-- `ror(x, n)` / `rol(x, n)` -/
@@ -631,6 +627,13 @@ def helperRot : Nat → Op → Expr → Expr → R Expr
     if x.isCst then do
       let (o1, o2) := if o == Op.ror then (Op.lsr, Op.lsl) else (Op.lsl, Op.lsr)
       let t1 ← api fuel o1 x n
+      -- `x >> …` clears `x.sf` in place; for `rol` the node `x << n` built just before still holds the
+      -- same object `x` as its left operand
+      let t1 := if o == Op.rol then
+                  (match t1 with
+                   | .op to (.cst tv ts _) tr tsz tsf tp => Expr.op to (.cst tv ts false) tr tsz tsf tp
+                   | _ => t1)
+                else t1
       let x := if o == Op.ror then x.setSf false else x
       let k ← api fuel Op.sub (mkCst x.size n.size) n
       let t2 ← api fuel o2 x k
@@ -734,24 +737,29 @@ def composer : Nat → List Expr → R Expr
         pure (c, st.2 + x.size)) (Expr.comp s sf [], 0)
       simplify fuel {} c
 
+/-- `exp.extend(x, sign, size)` -/
+def extendExp : Nat → Bool → Expr → Nat → R Expr
+  | 0, _, _, _ => .error .fuel
+  | fuel + 1, sign, x, size =>
+    if size ≤ x.size then .ok x
+    else do
+      let xt := size - x.size
+      let sb ← getitem fuel x ((x.size - 1 : Nat) : Int) (x.size : Int)
+      let xx ← if sign then do
+                  let t ← mkTst sb (mkCst (-1) xt) (mkCst 0 xt)
+                  pure (t.setSf true)
+               else pure (cst 0 xt false)
+      composer fuel [x, xx]
+
 end
 
-/-- `x.extend(sign, size)` (`zeroextend` / `signextend`, with the `cst` overrides) -/
+/-- `x.zeroextend(size)` / `x.signextend(size)` (with the `cst` overrides) -/
 def extend (fuel : Nat) (sign : Bool) (x : Expr) (size : Nat) : R Expr :=
   match x with
   | .cst v s _ =>
       if sign then .ok (mkCst (cstValue v s true) (max size s))
       else .ok (mkCst (v : Int) (max size s))
-  | _ =>
-    if size ≤ x.size then .ok x
-    else do
-      let xt := size - x.size
-      let sb ← getitem cfg fuel x (x.size - 1 : Nat) x.size
-      let xx ← if sign then do
-                  let t ← mkTst sb (mkCst (-1) xt) (mkCst 0 xt)
-                  pure (t.setSf true)
-               else pure (cst 0 xt false)
-      composer cfg fuel [x, xx]
+  | _ => extendExp cfg fuel sign x size
 
 /-- `x.bit(i)` -/
 def bitOf (fuel : Nat) (x : Expr) (i : Nat) : R Expr :=
